@@ -108,6 +108,14 @@ def variant_modules(rnd, quick):
         if k % 2:
             c.mod.func_names = {i + 2: 'g%d_%d' % (k, i) for i in range(0, 9, 2)}
         mods.append(('gen%d' % k, c.mod.encode(), (c, k)))
+    # call-graph shapes of C04 (imports that are re-exported, placed in element segments, called indirectly): the option points
+    # (-m, -g, -f ...) must keep every file compilable and every symbol consistent for them as well
+    from checks import c04 as _c04
+    for k in range(2 if quick else 10):
+        cm = _c04.build(env.rng('c09-c04shape', k), k)[0]
+        if not any(e[1] == 'func' and e[2] < cm.n_imported('func') for e in cm.exports) and cm.n_imported('func'):
+            cm.exports.append(('reexported_import', 'func', 0))
+        mods.append(('c04shape%d' % k, cm.encode(), None))
     return mods
 
 
